@@ -5,7 +5,8 @@
     [Inv] and simulation [Sim] of [IH5/OverlayProofs.v], property C01) and [Rec/Chain.v]
     (user blocks, files, [chain_ok], property C04). *)
 From stdpp Require Import gmap strings list.
-From MV Require Import IH5.Overlay IH5.OverlayProofs IH5.Merge IH5.MergeProofs.
+From MV Require Import IH5.Overlay IH5.OverlayProofs IH5.Stub IH5.StubProofs.
+From MV Require Import IH5.Merge IH5.MergeProofs IH5.MergePatchProofs.
 From MV Require Rec.Chain IH5.MergeChainProofs.
 
 (** ** The merged tree *)
@@ -40,6 +41,24 @@ Print Assumptions C05_build_eq.
 Theorem C05_build_eq_run : forall ops, m_merge_build (run_m ops) = Some (m_merge (run_m ops)).
 Proof. exact build_eq_run. Qed.
 Print Assumptions C05_build_eq_run.
+
+(** The walk of the code itself: [preorder] enumerates the view root-first in ascending order,
+    attributes of a node before its children, a name before its extensions (the order of
+    [visititems] with the attribute copies of [h5_copy_from_to]); it is parents-first, so the
+    construction in exactly that order yields the merged container. *)
+Theorem C05_preorder_parents_first : forall T, treeish T -> pfirst [] (preorder T).
+Proof. exact preorder_pfirst. Qed.
+Print Assumptions C05_preorder_parents_first.
+
+Theorem C05_build_preorder : forall R, Inv R -> attrs_data (viewmap R) ->
+  m_merge_preorder R = Some (m_merge R).
+Proof. exact build_preorder. Qed.
+Print Assumptions C05_build_preorder.
+
+Theorem C05_build_preorder_run : forall ops,
+  m_merge_preorder (run_m ops) = Some (m_merge (run_m ops)).
+Proof. exact build_preorder_run. Qed.
+Print Assumptions C05_build_preorder_run.
 
 (** ** Continuing the patch chain: trees *)
 
@@ -86,6 +105,37 @@ Theorem C05_patch_transplant : forall R T ops,
     (forall p, vget ((1, P) :: m_merge R) p = tget (tfold T ops) p).
 Proof. exact patch_transplant. Qed.
 Print Assumptions C05_patch_transplant.
+
+(** The written patch container depends on the record only through its view: for two records
+    simulated by the same plain tree, with equal newest containers and the same patch status,
+    every operation other than a boundary — copy and move included, which read values through
+    the view — leaves equal newest containers. *)
+Theorem C05_m_step_top_depends_on_view : forall Ra Rb T o,
+  Sim Ra T -> Sim Rb T -> top_cont Ra = top_cont Rb -> is_patch Ra = is_patch Rb -> nb_op o ->
+  top_cont (m_step Ra o).1 = top_cont (m_step Rb o).1.
+Proof. exact step_top_view. Qed.
+Print Assumptions C05_m_step_top_depends_on_view.
+
+Theorem C05_patch_depends_on_view : forall R1 R2 ops,
+  Inv R1 -> Inv R2 -> (forall p, vget R2 p = vget R1 p) -> Forall nb_op ops ->
+  patch_on R1 ops = patch_on R2 ops /\
+  results_from (m_boundary R1) ops = results_from (m_boundary R2) ops.
+Proof. exact patch_depends_on_view. Qed.
+Print Assumptions C05_patch_depends_on_view.
+
+(** Hence the patch FILE produced on the source is the patch file one would produce on the
+    merged record: the same boundary-free operation list run after a boundary on the merged
+    record and on the source writes the identical container [patch_on R ops] (as container 1
+    resp. [S (top_idx R)]; the container content carries no index), with identical outcomes of
+    all operations. *)
+Theorem C05_patch_container_identical : forall R ops,
+  Inv R -> Forall nb_op ops ->
+  patch_on (m_merge R) ops = patch_on R ops /\
+  results_from (m_boundary (m_merge R)) ops = results_from (m_boundary R) ops /\
+  run_from (m_boundary (m_merge R)) ops = (1, patch_on R ops) :: m_merge R /\
+  run_from (m_boundary R) ops = (S (top_idx R), patch_on R ops) :: R.
+Proof. exact patch_container_identical. Qed.
+Print Assumptions C05_patch_container_identical.
 
 (** ** Continuing the patch chain: user blocks *)
 
@@ -213,6 +263,33 @@ Proof.
   split; [by vm_compute|].
   split; [apply (fold_base ex_follow); repeat constructor; discriminate|].
   split; [by vm_compute|]. split; by vm_compute.
+Qed.
+
+(** The walk visits attributes first, "run1" before "run10", parents before children. *)
+Example C05_preorder_witness :
+  (preorder (run_t [ OData [(false, "x"); (false, "run10"); (false, "data")] "i:1";
+                     OGroup [(false, "run1"); (false, "data")];
+                     OAttrSet [(false, "data")] "k" "i:2"; OAttrSet [] "z" "i:3";
+                     OData [(false, "b")] "i:4" ]%string)).*1
+  = [ [(true, "z")]; [(false, "b")]; [(false, "data")]; [(true, "k"); (false, "data")];
+      [(false, "run1"); (false, "data")]; [(false, "run10"); (false, "data")];
+      [(false, "x"); (false, "run10"); (false, "data")] ]%string.
+Proof. exact preorder_example. Qed.
+
+(** A follow-up with a copy and a move (operations that read values): identical patch
+    containers on source and merged record, non-empty. *)
+Example C05_patch_identical_witness :
+  let R := run_m witness_ops in
+  let ops := [ OCopy [(false, "a")] [(false, "c")]; OMove [(false, "c")] [(false, "m"); (false, "a")];
+               ODel [(false, "touch"); (false, "a")] ]%string in
+  Forall nb_op ops /\
+  results_from (m_boundary R) ops = [true; true; true] /\
+  patch_on (m_merge R) ops = patch_on R ops /\
+  size (patch_on R ops) = 5.
+Proof.
+  cbv zeta. split; [repeat constructor|]. split; [by vm_compute|]. split.
+  - apply patch_container_identical; [apply transparent|repeat constructor].
+  - by vm_compute.
 Qed.
 
 (** A coherent two-file record with a follow-up patch file: premises of [C05_merged_chain]. *)
